@@ -6,6 +6,13 @@ VERIF = os.path.dirname(os.path.dirname(os.path.abspath(__file__)))
 
 # id -> (category, technique, text, note)
 CLAIMS = {
+    'C19': ('other',
+            'static analysis: def-use audit of every PLY grammar action (token-class positions from the production docstrings) for case folding and number normalisation',
+            'In both grammars every token of a class the lexer classifies case-insensitively (REGISTER, SEGMENT, ST, size keywords) is folded before it is used as '
+            'dict key / list.index argument / concatenated key (symbol names exempt); every Intel production turning NUMBER into an immediate applies the same '
+            '32-bit wrap; 0x/0X alike; t_NAME classifies on folded text and tokens declares every assigned type.',
+            'Not decided: white space, term order, disp[reg] forms (LALR tables and term algebra at run time); AT&T width wrap is decided under C02. '
+            'Mnemonic case (MOV vs mov) is outside the property\'s list.'),
     'C17': ('other',
             'static analysis: static expansion of the 539-row opcode table into trie cells compared with an independent control-transfer reference; def-use templates of the flow accessors',
             'Every cell of the decode trie (derived statically from the addop rows) carries exactly the breakflow/splitflow/dstflow attributes of its '
